@@ -38,11 +38,35 @@ def _run_one(job):
 
     mod = importlib.import_module(modname)
     _fill_known_contracts()
-    if kind == "unit":
-        spec = mod.UNITS[idx]
-        res = run_unit(spec, timeout_s=timeout_s, want_smt2=want_smt2)
-    else:
-        res = run_lemma(mod.LEMMAS[idx], timeout_s=timeout_s, want_smt2=want_smt2)
+    # wall-clock limit per unit: a generator that does not come back (e.g. closure blow-up on changed code) makes the
+    # unit UNDECIDED instead of hanging the check
+    import signal
+
+    limit = int(os.environ.get("PYVC_UNIT_LIMIT_S", "900" if timeout_s <= 30 else "3600"))
+
+    class _Limit(BaseException):
+        pass
+
+    def _alarm(signum, frame):
+        raise _Limit()
+
+    old_handler = signal.signal(signal.SIGALRM, _alarm)
+    signal.alarm(limit)
+    try:
+        if kind == "unit":
+            spec = mod.UNITS[idx]
+            res = run_unit(spec, timeout_s=timeout_s, want_smt2=want_smt2)
+        else:
+            res = run_lemma(mod.LEMMAS[idx], timeout_s=timeout_s, want_smt2=want_smt2)
+    except _Limit:
+        from pyvc.spec import UnitResult
+
+        u = mod.UNITS[idx] if kind == "unit" else mod.LEMMAS[idx]
+        res = UnitResult(u.unit_name() if kind == "unit" else "lemma:" + u.name, getattr(u, "func", ""))
+        res.unsupported = f"the VC generator did not finish this unit within {limit} s (wall clock)"
+    finally:
+        signal.alarm(0)
+        signal.signal(signal.SIGALRM, old_handler)
     d = asdict(res)
     return d
 
